@@ -52,6 +52,10 @@ def main(tier):
                 for tail in ["(1 for the lucky roll)", "(5 at least", "(2 x", "(1 +", "(", "(1", "(1 2)", "( )", "(1,2)", "((1)"]:
                     cases.append(("", (term + mod + tail).encode("utf-8"), r.choice(["-", "wcfd"])))
                     cases.append(("", ("1 + " + term + mod + tail).encode("utf-8"), "-"))
+        # consumed text ending in a character whose LAST BYTE looks like a blank when read alone (0x85, 0xA0): Matched ends after the character
+        for nm in ["乔装", "魅", "你", "映", "a = '装'; 装", "力量 + 魅", "x装", "[1,2].len() + 你"]:
+            for t in [" 检定", " ", "\t#", "\n理由", "", " 你 好"]:
+                cases.append(("", (nm + t).encode("utf-8"), "-"))
         # statement-level tails that START a construct which writes into its own code buffer (computed value, function) and then break off
         STMT_TAILS = ["; &note = ???", ";&c=", "\n&c = )", "; &c = 1 +", "; &c.x = ", "; func f(", "; func f() {", "; func f() { 1 +", "; &c = `a{", "; if 1 {", "; while 1 { &d = "]
         for s in ["hp = 10; hp = hp - 3", "a = 3d6", "x = 1; y = x + 1", "2d6 + 1", "i=0; while i<3 { i=i+1 }; i", "&q = 2; q + 1", "func g(){ 5 }; g()"]:
